@@ -123,16 +123,60 @@ def programs(tier: str) -> list[str]:
     return sorted(set(st) | set(corpus.PY_POOL), key=lambda s: (len(s), s))
 
 
+# Indentation written in *units* (a tab, eight blanks, four blanks, one blank, a form feed): strings of up to two units in
+# front of each line of a block.  Tab / blank mixes that are consistent for CPython or not, form feeds that restart the
+# column, dedents to a level that does not exist - all only show with runs of blanks too long for a character alphabet.
+INDENT_UNITS = ["\t", " " * 8, "    ", " ", "\f"]
+INDENT_STRINGS = [""] + INDENT_UNITS + [a + b for a in INDENT_UNITS for b in INDENT_UNITS]
+INDENT_HEADS = ["if a:\n", "def f():\n    if a:\n"]
+
+# Characters that str.splitlines() treats as line ends although the tokenizer (and CPython) do not, in the places where
+# they are legal - a comment, a string literal, a form-feed line - in front of text with non-ASCII characters or an error.
+SEPARATORS = ["\f", "\x0b", "\x1c", "\x1d", "\x1e", "\x85", "\u2028", "\u2029"]
+SEP_CARRIERS = ["# c{S}d\n", "s = 'a{S}b'\n", "{S}\n", "x = 1  # {S}\n", "s = '''a{S}\nb'''\n", "{S}", "t = f'a{S}{{x}}'\n"]
+SEP_TAILS = ["é = 1\n", "x = 'é' + y\n", "é.b(ü)\n", "print(f'{é=}')\n", "y = 1\n", "1 +\n", "def f(:\n", "x = (é,\n", "$é.b\n", "é = $(ls é)\n"]
+
+
+def indent_blocks(tier: str, lo: int, hi: int) -> Iterator[tuple[str, str]]:
+    """Blocks of two lines (three in the thorough tier) whose indentation strings run over INDENT_STRINGS."""
+    for i1 in INDENT_STRINGS[lo:hi]:
+        for head in INDENT_HEADS:
+            base = "    " if head.startswith("def") else ""
+            for i2 in INDENT_STRINGS:
+                for tail in ("", "d\n"):
+                    yield "indent2", f"{head}{base}{i1}b\n{base}{i2}c\n{tail}"
+                if tier == "thorough":
+                    for i3 in INDENT_STRINGS:
+                        yield "indent3", f"{head}{base}{i1}b\n{base}{i2}c\n{base}{i3}d\n"
+
+
+def separators() -> Iterator[tuple[str, str]]:
+    for sep in SEPARATORS:
+        for car in SEP_CARRIERS:
+            for tail in SEP_TAILS:
+                yield "sep", car.replace("{{", "\0").replace("{S}", sep).replace("\0", "{") + tail
+                yield "sep", "z = 0\n" + car.replace("{{", "\0").replace("{S}", sep).replace("\0", "{") + "\n" + tail
+
+
 def units(tier: str) -> list[tuple]:
     n = len(programs(tier))
     us: list[tuple] = [("lay", tier, i, min(n, i + 5), "single") for i in range(0, n, 5)]
     if tier == "thorough":
         us += [("lay", tier, i, i + 1, "pairs") for i in range(min(n, 160))]
+    step = 4 if tier == "quick" else 1
+    us += [("lay", tier, i, min(len(INDENT_STRINGS), i + step), "indent") for i in range(0, len(INDENT_STRINGS), step)]
+    us.append(("lay", tier, 0, 0, "sep"))
     return us
 
 
 def expand(unit: tuple) -> Iterator[tuple[str, str]]:
     _, tier, lo, hi, what = unit
+    if what == "indent":
+        yield from indent_blocks(tier, lo, hi)
+        return
+    if what == "sep":
+        yield from separators()
+        return
     for src in programs(tier)[lo:hi]:
         if what == "single":
             yield "orig", src
